@@ -50,6 +50,18 @@ def run(pid, units, results, seed):
         if 'U-SYN' in units:
             t0 = time.time()
             sweeps['placement_differential'] = {'failing_input': witness_alpha.search_syntax(time.time() + 60, rng), 'seconds': round(time.time() - t0, 1)}
+        if pid == 'C07':
+            from . import witness_types
+            t0 = time.time()
+            sweeps['type_rules_by_construction'] = {'failing_input': witness_types.search(time.time() + 90, rng), 'seconds': round(time.time() - t0, 1)}
+        if pid == 'C11':
+            from . import witness_layout
+            t0 = time.time()
+            sweeps['word_layout_by_construction'] = {'failing_input': witness_layout.search(time.time() + 90, rng), 'seconds': round(time.time() - t0, 1)}
+        if pid == 'C08':
+            from . import witness_mut
+            t0 = time.time()
+            sweeps['mutability_by_construction'] = {'failing_input': witness_mut.search(time.time() + 90, rng), 'seconds': round(time.time() - t0, 1)}
         if 'U-LEXA' in units:
             from . import witness_lexa
             t0 = time.time()
